@@ -45,7 +45,8 @@ CALLS = {}      # id(obj) -> {"static": n, "observe": n}
 
 
 def _bump(obj, what):
-    d = CALLS.setdefault(id(obj), {"static": 0, "observe": 0})
+    d = CALLS.setdefault(id(obj), {"static": 0, "observe": 0,
+                                   "post_init": 0})
     d[what] += 1
 
 
@@ -84,6 +85,10 @@ class Owner14(HasTraits):
     @observe("xs.items")
     def _xs_observed(self, event):
         _bump(self, "observe")
+
+    @observe("st.items", post_init=True)
+    def _st_observed(self, event):
+        _bump(self, "post_init")
 
 
 class WithDefaultRO(HasTraits):
@@ -342,10 +347,40 @@ def check_copy(ctx, o, how, hist):
         d.mp = "a"
         if d.mp_ != 1:
             bad("shadow", "the copy's mapped shadow value is %r" % d.mp_)
+        CALLS.pop(id(d), None)
+        CALLS.pop(id(o), None)
+        d.st.add(977)
+        got = CALLS.get(id(d), {}).get("post_init", 0)
+        if got != 1:
+            bad("post-init-observer", "the copy's @observe(post_init=True) "
+                "method was called %d times for one change" % got)
+        if CALLS.get(id(o)):
+            bad("original-notified", "mutating the copy notified the "
+                "original's post-init observer")
+        if how.startswith("pickle") and "pval" not in o.__dict__ and \
+                d.node is not None:
+            # an attribute that followed its prototype keeps following it
+            d.node.value += 50
+            if d.pval != d.node.value:
+                bad("prototype-link-lost", "after unpickling, pval no longer "
+                    "follows its prototype (%r vs %r)" % (d.pval,
+                                                          d.node.value))
     except Exception as e:
         bad("liveness-raises", "valid operations on the copy raised %r" % (e,))
     if state_of(o) != before:
         bad("original-changed", "operating on the copy changed the original")
+    # the original's own post-init observer is still registered exactly once
+    CALLS.pop(id(o), None)
+    try:
+        o.st.add(978)
+        got = CALLS.get(id(o), {}).get("post_init", 0)
+        if got != 1:
+            bad("original-post-init-observer", "after %s the original's "
+                "@observe(post_init=True) method is called %d times per "
+                "change" % (how, got))
+        o.st.discard(978)
+    except Exception as e:
+        bad("original-raises", "the original raised %r" % (e,))
     # a copy of the (already used) copy, by a different mechanism
     if how in ("pickle2", "deepcopy", "clone"):
         how2 = {"pickle2": "deepcopy", "deepcopy": "clone",
